@@ -17,6 +17,7 @@ import (
 )
 
 func runC03(c *Ctx, emit func(cs *progs.Case) progs.Obs) {
+	runC03HookArgs(c, emit) // (first: short programs, drawn without the generator, so that a witness is a small one)
 	n := 400
 	if c.Thorough() {
 		n = 6000
@@ -255,6 +256,7 @@ func runC03(c *Ctx, emit func(cs *progs.Case) progs.Obs) {
 			}
 			want := append(append([]string{}, pKeys...), kKeys[j]...)
 			wantIDs := append(append([]uint64{}, pIDs...), kIDs[j]...)
+			monitorHookArgs(c, cs, o, nil)
 			if fmt.Sprint(hookFields) != fmt.Sprint(want) || fmt.Sprint(o.Marks) != fmt.Sprint(wantIDs) {
 				c.Violate(Violation{Key: "sibling-hooks-interfere", Monitor: "hooks-once-tree", Desc: fmt.Sprintf("sibling %d of %d (parent with %d hooks added one at a time): hook fields %q marks %v, want %q %v", j, nk, nh, hookFields, o.Marks, want, wantIDs), Case: cs.Describe(), Observed: hookFields, Expected: want})
 			}
@@ -304,6 +306,7 @@ func hookChain(word string, grouping int, s progs.Settings, now time.Time) (step
 //	L Logger.Hook(LevelHook{...}) with the fields selected by the bits of lhSet (bit i: the hook for level i-1; bit 7 NoLevelHook):
 //	  for an event of the given level it contributes the field / mark of that level's hook, if set
 //	D Level(Disabled) (as a derivation step of its own: With().Logger().Level(Disabled))   E Level(-128) likewise
+//	X Logger.Hook(user hook adding a field and discarding the event)
 func hookChainAt(word string, grouping int, s progs.Settings, now time.Time, level int, lhSet uint) (steps []progs.Step, keys []string, ids []uint64) {
 	var cur *progs.Step
 	flush := func() {
@@ -356,12 +359,20 @@ func hookChainAt(word string, grouping int, s progs.Settings, now time.Time, lev
 				keys = append(keys, string(f[1].Key))
 				ids = append(ids, f[0].ID)
 			}
+		case 'X':
+			// a user hook that adds a field and discards the event (the event is not written; the hooks after it still run)
+			id := uint64(1000 + i)
+			k := fmt.Sprintf("x%d", i)
+			p := progs.Prim{M: "Int", V: i}
+			cur.Cops = append(cur.Cops, progs.Cop{K: "hook", Sub: []progs.Op{{K: "mark", ID: id}, {K: "key", Key: []byte(k), P: &p}, {K: "discard"}}})
+			keys = append(keys, k)
+			ids = append(ids, id)
 		case 'D':
 			cur.Mute = 1
 		case 'E':
 			cur.Mute = 2
 		}
-		if grouping == 0 || ch == 'H' || ch == 'L' || ch == 'D' || ch == 'E' {
+		if grouping == 0 || ch == 'H' || ch == 'X' || ch == 'L' || ch == 'D' || ch == 'E' {
 			flush()
 		}
 	}
